@@ -837,6 +837,45 @@ fn dump<'tcx>(tcx: TyCtxt<'tcx>, out_dir: &str, tag: &str) {
                 _ => {}
             }
         }
+        // promoted constants (e.g. `&*VM::VMObjectModel::LOCAL_MARK_BIT_SPEC`): record which named
+        // constants / fn items each promoted body refers to, so that rules can see through them
+        {
+            let proms = tcx.promoted_mir(did);
+            let mut pj: Vec<(String, J)> = vec![];
+            for (pi, pb) in proms.iter_enumerated() {
+                let mut items: Vec<J> = vec![];
+                for bbd in pb.basic_blocks.iter() {
+                    for st in bbd.statements.iter() {
+                        if let StatementKind::Assign(b) = &st.kind {
+                            let (_, rv) = &**b;
+                            let mut ops: Vec<&Operand<'tcx>> = vec![];
+                            match rv {
+                                Rvalue::Use(o, _) | Rvalue::Cast(_, o, _) | Rvalue::UnaryOp(_, o) | Rvalue::Repeat(o, _) => ops.push(o),
+                                Rvalue::BinaryOp(_, ab) => { ops.push(&ab.0); ops.push(&ab.1); }
+                                Rvalue::Aggregate(_, os) => { for o in os.iter() { ops.push(o); } }
+                                _ => {}
+                            }
+                            for o in ops {
+                                if let Operand::Constant(c) = o {
+                                    match &c.const_ {
+                                        Const::Unevaluated(u, _) => items.push(s(cx.qname(u.def))),
+                                        other => {
+                                            if let ty::FnDef(d, _) = other.ty().peel_refs().kind() {
+                                                items.push(s(cx.qname(*d)));
+                                            }
+                                        }
+                                    }
+                                }
+                            }
+                        }
+                    }
+                }
+                pj.push((format!("{}", pi.as_usize()), J::Arr(items)));
+            }
+            if !pj.is_empty() {
+                o.push(("promoted", J::Map(pj)));
+            }
+        }
         o.push(("body", cx.body(owner, body)));
         fns.push((q, J::Obj(o)));
     }
